@@ -112,8 +112,10 @@ uint32_t PPPoE::header_size() const {
 
 void PPPoE::write_serialization(uint8_t* buffer, uint32_t total_sz) {
     OutputMemoryStream stream(buffer, total_sz);
-    if (tags_size_ > 0) {
-        payload_length(tags_size_);
+    // The length field covers everything that follows the header: the tags
+    // and the session payload
+    if (tags_size_ > 0 || inner_pdu()) {
+        payload_length(static_cast<uint16_t>(total_sz - sizeof(header_)));
     }
     stream.write(header_);
     for (tags_type::const_iterator it = tags_.begin(); it != tags_.end(); ++it) {
